@@ -56,6 +56,14 @@ impl<T> Links<T> {
         }
     }
 
+    /// Number of entries the table can hold without reallocating (verification
+    /// hook: non-zero exactly when the table owns heap storage).
+    #[cfg(cactusref_verif)]
+    #[inline]
+    pub fn capacity(&self) -> usize {
+        self.registry.capacity()
+    }
+
     #[inline]
     pub fn clear(&mut self) {
         self.registry.clear();
